@@ -65,7 +65,7 @@ pub fn run(c: &Cmd) -> Run {
     let feeder = if let In::Pipe(data, sizes) = &c.stdin { child.stdin.take().map(|mut si| { let (data, sizes) = (data.clone(), sizes.clone()); std::thread::spawn(move || { use std::io::Write; let mut off = 0; let mut i = 0;
         while off < data.len() { let n = sizes.get(i).copied().unwrap_or(usize::MAX).max(1).min(data.len() - off); if si.write_all(&data[off..off + n]).is_err() { break; } let _ = si.flush(); off += n; i += 1; // the tool first unlocks a key (about 130 ms of scrypt) and only then reads: pieces are spaced so that
             // later ones arrive while it is already reading, which gives it short reads
-            if i < 10 { std::thread::sleep(std::time::Duration::from_millis(35)); } } }) }) } else { None };
+            if i < 8 { std::thread::sleep(std::time::Duration::from_millis(70)); } } }) }) } else { None };
     drop(cmd); // closes the parent's copy of the write end of a ClosedPipe
     if let Some(fd) = closed_reader { unsafe { libc::close(fd); } }
     // blocking wait; a shared watchdog thread kills children that outlive their deadline
